@@ -613,6 +613,7 @@ def explore(spec, rng_hints):
     for hints in hint_sets:
         for limit in LIMITS:
             outs = {}
+            judged_bad = set()
             for solver in SOLVERS:
                 out = run_impl(spec, solver, limit, fresh_hints(hints))
                 rec["runs"] += 1
@@ -621,6 +622,7 @@ def explore(spec, rng_hints):
                 bad = judge(spec, truth, solver, limit, hints, out)
                 if bad:
                     rec["bad"].append((solver, limit, hints, bad, out))
+                    judged_bad.add(solver)
                     continue
                 sols = out[2]
                 key = None if out[1] == "INFEASIBLE" else tuple(tuple(sorted(s.items())) for s in sols)
@@ -643,7 +645,7 @@ def explore(spec, rng_hints):
             if len(st) == 3 and len({v == "INFEASIBLE" for v in st.values()}) > 1 and not rec["bad"]:
                 rec["bad"].append(("all", limit, hints, f"back-ends disagree on satisfiability: {st}", None))
             # model correspondence (DFS path)
-            if supported and outs["dfs"][0] == "ok" and len(truth) <= 400:
+            if supported and outs["dfs"][0] == "ok" and "dfs" not in judged_bad and len(truth) <= 400:
                 o = outs["dfs"]
                 impl = [] if o[1] == "INFEASIBLE" else o[2]
                 if all(isinstance(s, dict) for s in impl):
